@@ -13,6 +13,7 @@
      src/expr.rs:rewrite_literal (hex_literal_case, float_literal_trailing_zero).
    Definitions only; proofs are in Lemmas.v. *)
 From Coq Require Import String Ascii.
+From Coq Require Import Permutation.
 From V Require Import Base.Text.
 Open Scope string_scope.
 Open Scope N_scope.
@@ -1261,3 +1262,67 @@ Inductive Equiv (c : sctx) : list item -> list item -> Prop :=
     Equiv (CIn DBrace) body body' ->
     Equiv c (pre ++ Grp d1 m :: Tok s_fatarrow :: Grp d2 body :: post)
             (pre ++ Grp d1 m :: Tok s_fatarrow :: Grp d2 body' :: post).
+
+(* ------------------------------------------------------------------ *)
+(* P2 end to end: what reorder_runs (norm_tree) does, declaratively *)
+
+(* the tree that norm_tree is applied to: core passes, then merge_derives if configured *)
+Definition post_core_items (o : opts) (ts : list tok) : list item :=
+  let t := norm_core_items o ts in if o_merge_derives o then merge_derives t else t.
+
+(* the atoms OUTSIDE the reorderable runs, at every nesting level.  Which statements of a level form runs is
+   decided as norm_tree decides it: on the level's items with their contents already normalised.
+   stmts: the statements of the normalised level; outs: the outside atoms of each ORIGINAL item, in order *)
+Fixpoint cut_emit (stmts : list (list item)) (outs : list (list text)) : list text :=
+  match stmts with
+  | [] => concat outs
+  | st :: r =>
+      let n := length st in
+      (if nonrun st then concat (firstn n outs) else []) ++ cut_emit r (skipn n outs)
+  end.
+Fixpoint outside_item (o : opts) (x : item) : list text :=
+  match x with
+  | Tok t => [t]
+  | Grp d its =>
+      open_text d
+      :: cut_emit (fst (stmts_split [] (map (norm_tree_item o) its))) (map (outside_item o) its)
+      ++ [close_text d]
+  end.
+Definition outside (o : opts) (seq : list item) : list text :=
+  cut_emit (fst (stmts_split [] (map (norm_tree_item o) seq))) (map (outside_item o) seq).
+
+(* a statement of a run as flush_run sees it: (attributes and visibility, the rest, the whole statement) *)
+Definition run_entry : Type := list item * list item * list item.
+Definition entry_head (e : run_entry) : list text := flatten (fst (fst e)).
+Definition entry_leaves (o : opts) (e : run_entry) : list text :=
+  parse_use (o_edition2015 o) (removelast (tl (snd (fst e)))).
+Definition entry_kind (k : rkind) (e : run_entry) : Prop :=
+  stmt_kind (snd e) = Some (k, fst (fst e), snd (fst e)).
+(* the classes of a run of imports: one per distinct head (attributes + visibility, flattened); the leaf strings
+   of a class are exactly the rendered leaves of the statements with that head *)
+Definition UseClasses (o : opts) (sts : list run_entry) (cs : list (list text * list text)) : Prop :=
+  NoDup (map fst cs) /\
+  (forall h, In h (map fst cs) <-> exists e, In e sts /\ entry_head e = h) /\
+  (forall h ls, In (h, ls) cs ->
+     forall s, In s ls <-> exists e, In e sts /\ entry_head e = h /\ In s (entry_leaves o e)).
+(* one segment of a level: a statement kept as it is, or a run and the canonical strings that replace it *)
+Inductive SegSpec (o : opts) : list (list item) -> list item -> Prop :=
+| Seg_keep st : stmt_kind st = None -> SegSpec o [st] st
+| Seg_use (sts : list run_entry) cs :
+    sts <> [] -> Forall (entry_kind RUse) sts -> UseClasses o sts cs ->
+    SegSpec o (map snd sts) (map (fun c => Tok (use_string c)) cs)
+| Seg_items k (sts : list run_entry) out :
+    k <> RUse -> sts <> [] -> Forall (entry_kind k) sts ->
+    Permutation out (map (fun e : run_entry => Tok (item_string (join [SP] (flatten (snd e))))) sts) ->
+    SegSpec o (map snd sts) out.
+Definition LevelSpec (o : opts) (seq out : list item) : Prop :=
+  exists (segs : list (list (list item) * list item)) (tail : list item),
+    seq = concat (concat (map fst segs)) ++ tail /\
+    out = concat (map snd segs) ++ tail /\
+    Forall (fun sg => SegSpec o (fst sg) (snd sg)) segs.
+(* the same at every nesting level: contents first, then the level itself *)
+Inductive TreeSpec (o : opts) : list item -> list item -> Prop :=
+| TS seq seq' out : Forall2 (ItemSpec o) seq seq' -> LevelSpec o seq' out -> TreeSpec o seq out
+with ItemSpec (o : opts) : item -> item -> Prop :=
+| IS_tok t : ItemSpec o (Tok t) (Tok t)
+| IS_grp d its out : TreeSpec o its out -> ItemSpec o (Grp d its) (Grp d out).
